@@ -330,6 +330,32 @@ def run_case(sh, s, tier, d, case, only=None, prebuilt=None):
                             break
                     if bad:
                         break
+                    # snapshots older than the pack time: a reader there may find its revision gone (it gets a retryable
+                    # conflict error), but whatever it is given must be what it was given before the pack
+                    # (packs without gc only: with gc the recorded pack-GC family - an object unreachable at T whose older revision a
+                    # later undo names - also shows up here, as a reader below T being given that older revision)
+                    if kind == 'file' and not bad and not gc:
+                        for t_old in [t for t in tids if t < T][-4:]:
+                            p_old = p64(u64(t_old) + 1)
+                            if p_old not in allviews:
+                                allviews[p_old] = view(ref, p_old, strong_refs)
+                            for o, x in allviews[p_old].items():
+                                if not isinstance(x, tuple):
+                                    continue
+                                try:
+                                    y = tgt.loadBefore(o, p_old)
+                                except POSKeyError:
+                                    y = None
+                                sh.count('older_snapshot_loads_compared')
+                                if y is not None and y[:2] != x[:2]:
+                                    sh.violation('c07:file:snapshot-older-than-the-pack-time-is-given-another-revision',
+                                                 dict(wit, oid=o, snapshot=p_old, reopen=reopen, before=(x[1], x[2]), after=(y[1], y[2])), c2)
+                                    bad = True
+                                    break
+                            if bad:
+                                break
+                        if bad:
+                            break
                     post_after = txn_list(tgt, T)
                     if post_after != post_before:
                         sh.violation('c07:%s:post-T-transactions-differ' % kind,
